@@ -64,6 +64,19 @@ func main() {
 			}
 		}
 	}
+	// every format as a variant of a sum told apart by JSON type, next to a variant of another JSON
+	// type: the case a variant is decoded under is decided from its JSON representation (a string for
+	// the stringified numbers), in more than one place of the generator
+	for _, typ := range []string{"integer", "number", "string"} {
+		for _, f := range fmtTable[typ] {
+			schemas = append(schemas, M{"oneOf": []any{M{"type": typ, "format": f}, M{"type": "boolean"}}})
+		}
+	}
+	schemas = append(schemas,
+		M{"oneOf": []any{M{"type": "string", "format": "int64"}, M{"type": "number"}}},
+		M{"anyOf": []any{M{"type": "string", "format": "float64"}, M{"type": "integer"}, M{"type": "boolean"}}},
+		M{"oneOf": []any{M{"type": "string", "format": "uuid"}, M{"type": "integer", "format": "int32"}, M{"type": "array", "items": M{"type": "string", "format": "date"}}}},
+	)
 	roots := M{}
 	for k, v := range comps {
 		roots[k] = v
